@@ -115,8 +115,11 @@ fn init(mut seed: i32) -> (Vec<usize>, Vec<Vec<Vec<f64>>>) {
             let s = (gradient[k][i][0] * gradient[k][i][0] + gradient[k][i][1] * gradient[k][i][1])
                 .sqrt();
 
-            gradient[k][i][0] /= s;
-            gradient[k][i][1] /= s;
+            // Both components can be zero. Such a vector cannot be normalized.
+            if s != 0.0 {
+                gradient[k][i][0] /= s;
+                gradient[k][i][1] /= s;
+            }
         }
     }
 
